@@ -1943,6 +1943,15 @@ class VM:
                 values = [source.get_index(i) for i in range(source.length)]
             elif isinstance(source, str):
                 values = list(source)
+            elif isinstance(source, JSObject):
+                # Any other object is read as an array-like: length, then 0..length-1
+                count = to_integer_or_infinity(self._get_property(source, "length"))
+                count = 0 if count != count or count < 0 else count
+                if offset + count > arr.length:
+                    raise JSRangeError("offset is out of bounds")
+                values = [
+                    self._get_property(source, str(i)) for i in range(int(count))
+                ]
             else:
                 values = []
             if offset + len(values) > arr.length:
